@@ -52,10 +52,10 @@ type scanRecord struct {
 }
 
 type cmdRecord struct {
-	kind           string
-	invoke, ret    int64
-	err            error
-	waiting        bool
+	kind        string
+	invoke, ret int64
+	err         error
+	waiting     bool
 }
 
 type harness struct {
@@ -79,17 +79,17 @@ type harness struct {
 	sel       *selection.Selection
 
 	// journal
-	inflightEP   map[string]int
+	inflightEP    map[string]int
 	transInFlight map[string]int
-	scanCount    map[string]int
-	scanStarts   map[string][]int64
-	lastScan     map[string]*scanRecord
-	evaluated    int
-	expectedPlan map[string][]*core.Change
-	transCalls   int
-	outcomeNo    map[string]int
-	transCallNo  map[string]int
-	stageCalls   int
+	scanCount     map[string]int
+	scanStarts    map[string][]int64
+	lastScan      map[string]*scanRecord
+	evaluated     int
+	expectedPlan  map[string][]*core.Change
+	transCalls    int
+	outcomeNo     map[string]int
+	transCallNo   map[string]int
+	stageCalls    int
 
 	// lifecycle state as known to the harness
 	pausedSince     int64 // >0: Pause returned at that seq and no Resume was invoked since
@@ -99,22 +99,22 @@ type harness struct {
 	cmds            []*cmdRecord
 
 	// settle bookkeeping
-	quiet            bool
-	quietViolations  []string
-	ideal            bool // no outcome faults, errors or mid-cycle edits so far
-	haltWatch        bool
-	settling         bool // settle phase: the simulated user is idle
-	haltWatchSide    string
-	propagatedAfter  bool
-	lastErrors       []string
+	quiet           bool
+	quietViolations []string
+	ideal           bool // no outcome faults, errors or mid-cycle edits so far
+	haltWatch       bool
+	settling        bool // settle phase: the simulated user is idle
+	haltWatchSide   string
+	propagatedAfter bool
+	lastErrors      []string
 
-	restError string
-	atRest    bool
+	restError      string
+	atRest         bool
 	cycleClean     bool
 	cycleN         int
 	cycleScanStart int64
 	expectedPost   map[string]*core.Entry
-	pending   map[string][]pendingResult
+	pending        map[string][]pendingResult
 
 	// disk scenario (modelSide marks endpoints that stay in-memory models in a
 	// mixed session)
